@@ -49,6 +49,7 @@ class FnView:
         self.removed = set()
         self._defs = None
         self._expr_cache = {}
+        self.restrict = None
         self.policy_sites = []   # (bi, tag)
         if policy_diverges:
             self._prune_policy()
@@ -81,9 +82,20 @@ class FnView:
 
     def single_def(self, local):
         ds = self.defs.get(local, [])
+        if self.restrict is not None:
+            ds = [d for d in ds if d[0] in self.restrict]
         if len(ds) == 1 and not self._mut_partial(local):
             return ds[0]
         return None
+
+    def restricted(self, live):
+        """same function, but a local counts as single-definition when only one of its
+        definitions lies in `live` blocks"""
+        import copy
+        v = copy.copy(self)
+        v.restrict = set(live)
+        v._expr_cache = {}
+        return v
 
     def _mut_partial(self, local):
         # partial writes through a *direct* projection (not through deref) change the local itself
@@ -636,6 +648,9 @@ def typed_name(e):
     if e[0] == "field":
         owner = e[2].rsplit("::", 1)[-1]
         return f"{owner}.{e[3]}"
+    if e[0] == "payload":
+        t = typed_name(e[1])
+        return t + "?" if t else None
     return None
 
 
